@@ -3,6 +3,8 @@ them): `run()` has nothing to step, but it still walks the life cycle — every 
 `finalize`, every adapter is finalized exactly once."""
 import finam as fm
 
+from ..fmutil import limited
+
 
 def gen(rng):
     return {"part": "notime", "adapters": rng.randint(0, 2), "consumers": rng.choice([1, 2]), "flip": rng.random() < 0.5,
@@ -39,7 +41,7 @@ def run(case):
         cur >> c.inputs["In"]
     res = {"error": None}
     try:
-        comp.run()   # (start and end must be None without time components)
+        limited(30, comp.run)   # (start and end must be None without time components)
     except Exception as e:  # noqa
         res["error"] = f"{type(e).__name__}: {str(e)[:160]}"
     res["finalize_calls"] = counts
